@@ -239,11 +239,34 @@ def run_tie(pid, families, tier, seed, mharness, extra_ops_files=()):
             if rc != 0:
                 raise RuntimeError(f"mharness gen {fam} failed")
     crash = None
-    with open(opsf) as fin, open(casesf, "w") as fout:
-        env = dict(GOENV, GOMEMLIMIT="8GiB")
-        p = subprocess.run([mharness, "eval"], stdin=fin, stdout=fout, stderr=subprocess.PIPE, env=env, text=True)
-        if p.returncode != 0:
-            crash = p.stderr[-3000:]
+    # Miller code may call os.Exit (clean "mlr: ..." error exits) or die with a fatal Go error inside
+    # the in-process harness: restart after the offending op and record it as "exit" / "crash".
+    env = dict(GOENV, GOMEMLIMIT="8GiB")
+    remaining = [l.rstrip("\n") for l in open(opsf) if l.strip() and not l.startswith("#")]
+    restarts = 0
+    with open(casesf, "w") as fout:
+        while remaining:
+            p = subprocess.run([mharness, "eval"], input="\n".join(remaining) + "\n", stdout=subprocess.PIPE,
+                               stderr=subprocess.PIPE, env=env, text=True)
+            lines = p.stdout.split("\n")
+            if lines and lines[-1] == "":
+                lines.pop()
+            elif lines:
+                lines.pop()  # incomplete last line
+            for l in lines:
+                fout.write(l + "\n")
+            if len(lines) >= len(remaining):
+                break
+            culprit = remaining[len(lines)]
+            err = p.stderr[-600:]
+            kind = "exit" if (p.returncode == 1 and "mlr" in err and "goroutine" not in err and "panic" not in err) else "crash"
+            fout.write(culprit + " | " + kind + "\n")
+            if kind == "crash" and crash is None:
+                crash = {"op": culprit, "stderr": err}
+            remaining = remaining[len(lines) + 1:]
+            restarts += 1
+            if restarts > 2000:
+                raise RuntimeError("too many harness restarts")
     mdriver = os.path.join(LEAN, ".lake", "build", "bin", "mdriver")
     with open(casesf) as fin, open(verdf, "w") as fout:
         p = subprocess.run([mdriver], stdin=fin, stdout=fout, stderr=subprocess.PIPE, text=True)
@@ -260,7 +283,8 @@ def run_tie(pid, families, tier, seed, mharness, extra_ops_files=()):
             op = case.split(" ", 1)[0]
             tally["by_op"][op] = tally["by_op"].get(op, 0) + 1
             impl = case.rsplit(" | ", 1)[-1]
-            kind = op + ":" + impl.split(":", 1)[0]
+            m0 = re.match(r"[A-Za-z_]+", impl)
+            kind = op + ":" + (m0.group(0)[:12] if m0 else ("empty" if impl in ("", "-") else "data"))
             tally["impl_kinds"][kind] = tally["impl_kinds"].get(kind, 0) + 1
             tally["distinct"].add(hash(case))
             if len(tally["samples"]) < 12 and tally["evaluations"] % 9973 == 1:
@@ -283,11 +307,9 @@ def run_tie(pid, families, tier, seed, mharness, extra_ops_files=()):
                 e["count"] += 1
                 if len(e["examples"]) < 5:
                     e["examples"].append((case, m.group(2)))
-    if crash is not None or tally["evaluations"] < nops:
-        # the first op line without a result is the one that killed the process
-        lines = [l.rstrip("\n") for l in open(opsf) if l.strip() and not l.startswith("#")]
-        culprit = lines[tally["evaluations"]] if tally["evaluations"] < len(lines) else "?"
-        tally["crash"] = {"op": culprit, "stderr": crash or ""}
+    if crash is not None:
+        tally["crash"] = crash
+    tally["harness_restarts"] = restarts
     tally["distinct"] = len(tally["distinct"])
     return tally
 
